@@ -112,6 +112,10 @@ class CompressedWeightCache:
     cache: Dict[WeightCompressionConfig, Tensor] = {}
 
     @staticmethod
+    def clear():
+        CompressedWeightCache.cache.clear()
+
+    @staticmethod
     def get_tensor_with_same_compression(wcc):
         return CompressedWeightCache.cache.get(wcc)
 
